@@ -285,6 +285,17 @@ def ring_workout(chk, maxlen):
         if v[1] is not None:
             chk.violation("ring-gc:value-changed", "ring workout with heap values %s: sequence %r gave %r (a queued value did not "
                           "survive a collection)" % (it, v[1][0], v[1][1]), "# item %s of props/C06/driver_ring.janet\n" % it)
+    # direct hand-offs to waiting takers with a collection before the takers run
+    (st, text), = run_batch("asan", drv, [jdn({Kw("handoff"): 60})], chunk=1, timeout=300)
+    if st != "OK":
+        chk.violation("ring-gc:handoff:%s" % st.lower(), "values handed to waiting takers, collection before they run: %s %s" % (st, text[-600:]),
+                      "# item {:handoff 60} of props/C06/driver_ring.janet\n")
+    else:
+        v = canonparse.parse(text)
+        htotal += v[0]
+        if v[1] is not None:
+            chk.violation("ring-gc:handoff:value-changed", "round %r: takers received %r, given %r (a value handed to a waiting taker "
+                          "did not survive a collection)" % (v[1][0], v[1][2], v[1][3]), "# item {:handoff 60} of props/C06/driver_ring.janet\n")
     chk.add(evaluations=total + htotal, transitions=total + htotal)
     chk.part("ring-workout", sequences=total, maxlen=maxlen, heap_sequences=htotal, heap_maxlen=hlen)
 
